@@ -296,11 +296,138 @@ def translate_step_scale(tree):
     return text
 
 
+class _Cond:
+    """translator for the few Boolean / counting expressions of `KeplerNum._iter` (Python -> Lean Bool / Nat / Int).
+    Names: dates of type Int, `len(ephem)` and `Ephem.DEFAULT_ORDER` of type Nat, flags of type Bool."""
+
+    def __init__(self, names):
+        self.names = names      # python name -> (lean text, type in {"B", "I", "N"})
+        self.tr = py2lean.Tr()
+
+    def expr(self, e):
+        U = py2lean.Untranslatable
+        if isinstance(e, ast.Name) and e.id in self.names:
+            return self.names[e.id]
+        if self.tr.dotted(e) == "Ephem.DEFAULT_ORDER":
+            return "defaultOrder", "N"
+        if isinstance(e, ast.Call) and isinstance(e.func, ast.Name) and len(e.args) == 1 and not e.keywords:
+            if e.func.id == "len" and isinstance(e.args[0], ast.Name) and e.args[0].id == "ephem":
+                return "len", "N"
+            if e.func.id == "bool" and isinstance(e.args[0], ast.Name) and e.args[0].id == "listeners":
+                return "listening", "B"
+        if isinstance(e, ast.Call) and isinstance(e.func, ast.Name) and e.func.id in ("min", "max") and len(e.args) == 2 and not e.keywords:
+            (a, ta), (b, tb) = self.expr(e.args[0]), self.expr(e.args[1])
+            if ta == tb == "N":
+                return f"({e.func.id} {a} {b})", "N"
+        if isinstance(e, ast.BoolOp):
+            parts = [self.expr(v) for v in e.values]
+            if all(t == "B" for _, t in parts):
+                return "(" + (" || " if isinstance(e.op, ast.Or) else " && ").join(p for p, _ in parts) + ")", "B"
+        if isinstance(e, ast.UnaryOp) and isinstance(e.op, ast.Not):
+            a, t = self.expr(e.operand)
+            if t == "B":
+                return f"(!{a})", "B"
+        if isinstance(e, ast.IfExp):
+            (c, tc), (a, ta), (b, tb) = self.expr(e.test), self.expr(e.body), self.expr(e.orelse)
+            if tc == "B" and ta == tb:
+                return f"(if {c} then {a} else {b})", ta
+        if isinstance(e, ast.Compare) and len(e.ops) == 1:
+            op, rhs = e.ops[0], e.comparators[0]
+            if isinstance(op, (ast.IsNot, ast.Is)) and isinstance(rhs, ast.Constant) and rhs.value is None and isinstance(e.left, ast.Name):
+                flag = {"dates": "datesGiven", "step": "stepGiven"}.get(e.left.id)
+                if flag:
+                    return (flag if isinstance(op, ast.IsNot) else f"(!{flag})"), "B"
+            sym = {ast.Lt: "<", ast.Gt: ">", ast.LtE: "≤", ast.GtE: "≥", ast.Eq: "=", ast.NotEq: "≠"}.get(type(op))
+            if sym:
+                (a, ta), (b, tb) = self.expr(e.left), self.expr(rhs)
+                if ta == tb and ta in ("I", "N"):
+                    return f"decide ({a} {sym} {b})", "B"
+        if isinstance(e, ast.BinOp) and isinstance(e.op, (ast.Sub, ast.Add)):
+            (a, ta), (b, tb) = self.expr(e.left), self.expr(e.right)
+            if ta == tb == "N":
+                # only used as the argument of `range(...)`: a negative count is an empty range = truncated subtraction
+                return f"({a} {'-' if isinstance(e.op, ast.Sub) else '+'} {b})", "N"
+        raise U("_iter expression " + ast.unparse(e)[:100])
+
+
+def translate_iter(tree, ephem_tree):
+    """the padding rule of `KeplerNum._iter`: loop condition of the march, `interp`, padding count of the positioning phase,
+    the `order` argument of the two `Ephem(...)` calls; `Ephem.DEFAULT_ORDER`"""
+    U = py2lean.Untranslatable
+    cls = next(n for n in ephem_tree.body if isinstance(n, ast.ClassDef) and n.name == "Ephem")
+    order = [s.value.value for s in cls.body if isinstance(s, ast.Assign) and isinstance(s.targets[0], ast.Name) and s.targets[0].id == "DEFAULT_ORDER"
+             and isinstance(s.value, ast.Constant) and isinstance(s.value.value, int)]
+    # `self.order = order if isinstance(order, int) else self.DEFAULT_ORDER` in Ephem.__init__
+    init = next(s for s in cls.body if isinstance(s, ast.FunctionDef) and s.name == "__init__")
+    oas = [ast.unparse(s.value) for s in ast.walk(init) if isinstance(s, ast.Assign) and ast.unparse(s.targets[0]) == "self.order"]
+    if len(order) != 1 or oas != ["order if isinstance(order, int) else self.DEFAULT_ORDER"]:
+        raise U("Ephem.DEFAULT_ORDER / Ephem.__init__ order defaulting not recognised")
+    fn = py2lean.find_function(tree, "KeplerNum._iter")
+    calls_make_step = lambda node: any(isinstance(c, ast.Call) and py2lean.Tr().dotted(c.func) == "self._make_step" for c in ast.walk(node))
+    pos_if = [s for s in fn.body if isinstance(s, ast.If) and ast.unparse(s.test) == "start != orb.date"]
+    main_while = [s for s in fn.body if isinstance(s, ast.While) and calls_make_step(s)]
+    interp = [s for s in fn.body if isinstance(s, ast.Assign) and isinstance(s.targets[0], ast.Name) and s.targets[0].id == "interp"]
+    if len(pos_if) != 1 or len(main_while) != 1 or len(interp) > 1:
+        raise U("_iter: positioning block / main loop not recognised")
+    # the body of both loops is `real_step, orb = self._make_step(orb, _step); ephem.append(orb)[; date += real_step]`
+    body_txt = "real_step, orb = self._make_step(orb, _step)\nephem.append(orb)"
+    pos_while = [s for s in pos_if[0].body if isinstance(s, ast.While)]
+    pos_for = [s for s in pos_if[0].body if isinstance(s, ast.For)]
+    if (len(pos_while) != 1 or len(pos_for) != 1 or ast.unparse(pos_while[0].test) != "getattr(date, mname)(start)"
+            or "\n".join(ast.unparse(s) for s in pos_while[0].body) != body_txt + "\ndate += real_step"
+            or "\n".join(ast.unparse(s) for s in pos_for[0].body) != body_txt
+            or "\n".join(ast.unparse(s) for s in main_while[0].body) != body_txt + "\ndate += real_step"
+            or not (isinstance(pos_for[0].iter, ast.Call) and ast.unparse(pos_for[0].iter.func) == "range" and len(pos_for[0].iter.args) == 1)):
+        raise U("_iter: loops of the positioning phase / the march not recognised")
+    names = {"date": ("date", "I"), "stop": ("stop", "I"), "start": ("start", "I"), "backward": ("backward", "B"), "interp": ("interp", "B")}
+    c = _Cond(names)
+    cond, tcond = c.expr(main_while[0].test)
+    if interp:
+        itxt, _ = _Cond({}).expr(interp[0].value)
+    else:
+        itxt = "false"          # no `interp` flag in the source
+        if "interp" in {n.id for n in ast.walk(main_while[0].test) if isinstance(n, ast.Name)}:
+            raise U("_iter: `interp` used but not assigned")
+    pad, tpad = c.expr(pos_for[0].iter.args[0])
+    if tcond != "B" or tpad != "N":
+        raise U("_iter: types of the loop condition / padding count")
+
+    def order_arg(stmts, what):
+        calls = [s.value for s in stmts if isinstance(s, ast.Assign) and isinstance(s.value, ast.Call) and ast.unparse(s.value.func) == "Ephem"]
+        if len(calls) != 1 or [ast.unparse(a) for a in calls[0].args] != ["ephem"] or any(k.arg != "order" for k in calls[0].keywords):
+            raise U("_iter: Ephem(...) call of " + what)
+        if not calls[0].keywords:
+            return "none"
+        txt, t = c.expr(calls[0].keywords[0].value)
+        if t != "N":
+            raise U("_iter: order argument of " + what)
+        return f"some {txt}"
+    oa_pos = order_arg(pos_if[0].body, "the positioning phase")
+    oa_main = order_arg(fn.body, "the march")
+    return ("/- GENERATED by harness/props/C06.py from beyond/propagators/keplernum.py (`KeplerNum._iter`) and beyond/orbits/ephem.py on every run -/\n"
+            "namespace BeyondVerif.Generated.KNIterSrc\nset_option linter.unusedVariables false\n\n"
+            f"/-- `Ephem.DEFAULT_ORDER` -/\ndef defaultOrder : Nat := {order[0]}\n\n"
+            f"/-- `interp = {ast.unparse(interp[0].value) if interp else '(absent)'}` -/\n"
+            f"def interpFlag (datesGiven stepGiven listening : Bool) : Bool := {itxt}\n\n"
+            f"/-- `while {ast.unparse(main_while[0].test)}:` (the march over the requested span; `len` is `len(ephem)`) -/\n"
+            f"def marchCond (backward interp : Bool) (date stop : Int) (len : Nat) : Bool := {cond}\n\n"
+            f"/-- `for i in range({ast.unparse(pos_for[0].iter.args[0])}):` (padding of the positioning phase) -/\n"
+            f"def padCount (len : Nat) : Nat := {pad}\n\n"
+            "/-- the `order` argument of `Ephem(ephem, ...)` in the positioning phase, `len = len(ephem)`; `none` = not passed -/\n"
+            f"def ephemOrderArgPos (len : Nat) : Option Nat := {oa_pos}\n\n"
+            "/-- the `order` argument of `Ephem(ephem, ...)` over the requested span -/\n"
+            f"def ephemOrderArg (len : Nat) : Option Nat := {oa_main}\n\n"
+            "end BeyondVerif.Generated.KNIterSrc\n")
+
+
 def extract(ctx):
     tree = ast.parse(open(KN_PY).read())
     btext, values = translate_butcher(tree)
     body = "namespace KN\n\n" + PRELUDE + "\n" + btext + translate_accel(tree) + "\n" + translate_step_scale(tree) + "\nend KN\n"
     ch = py2lean.instantiate(core.LEAN, "KeplerNum", body, "beyond/propagators/keplernum.py")
+    itext = translate_iter(tree, ast.parse(open(os.path.join(core.REPO, "beyond", "orbits", "ephem.py")).read()))
+    if core.write_if_changed(os.path.join(core.LEAN, "BeyondVerif", "Generated", "KNIterSrc.lean"), itext):
+        ch.append("Generated/KNIterSrc.lean")
     ch += instantiate.main()
     # self-check of the reader against the live class attribute (bit-exact)
     from beyond.propagators.keplernum import KeplerNum
@@ -545,7 +672,345 @@ def correspondence(ctx):
                          observed=real, expected=model)
                 break
         out.sample({"request": req[:100] + "…", "impl": real, "model": model}, limit=3)
+    # 4. histories on one object (attribute assignments, copy, calls)
+    corr_histories(ctx, out, mu)
+    # 5. the tabulations `_iter` builds
+    corr_iter(ctx, out, mu)
     return out
+
+
+# ---------------------------------------------------------------- correspondence: histories on one KeplerNum object
+
+class _FixedBody:
+    """a point mass at rest in EME2000 (duck-typed body: `µ`, `propagate(date)`)"""
+
+    def __init__(self, name, mu, pos):
+        self.name = name
+        setattr(self, "μ", mu)      # `body.µ`: the identifier is NFKC-normalised by the parser to U+03BC
+        self.pos = list(pos)
+
+    def propagate(self, date):
+        from beyond.orbits import StateVector
+        return StateVector(self.pos + [0.0, 0.0, 0.0], date, "cartesian", "EME2000")
+
+    def tokens(self):
+        return [f2b(float(getattr(self, "μ")))] + [f2b(float(v)) for v in self.pos + [0.0, 0.0, 0.0]]
+
+
+def gen_history(rng, mu):
+    """(initial configuration, operations) of one history; operations as dicts"""
+    def far():
+        # Moon-like, Sun-like, and a heavier nearby mass: perturbations of 1e-6 .. 1e-3 of the central attraction
+        m_, d_ = rng.choice([(4.9e12, 3.8e8), (1.3e20, 1.5e11), (3.0e13, 1.0e9)])
+        u = [rng.uniform(-1, 1) for _ in range(3)]
+        n = math.sqrt(sum(x * x for x in u)) or 1.0
+        return _FixedBody("far", m_, [d_ * x / n for x in u])
+    central = _FixedBody("central", mu, [0.0, 0.0, 0.0])
+    name = lambda: rng.choice(METHODS + METHODS + ["RK4", "Dopri54", "rk5", "EULER"])
+    init = {"method": name(), "step": q(rng.uniform(5, 120)), "tol": 10 ** rng.uniform(-8, -2), "bodies": [central] + ([far()] if rng.random() < 0.3 else [])}
+    nb = len(init["bodies"])
+    step = init["step"]
+    ops = []
+    o = gen_orbit(rng, mu)
+    for _ in range(rng.randint(3, 9)):
+        r = rng.random()
+        if r < 0.45 or not ops:
+            h = step * rng.choice([1, 1, -1, 0.5, -0.25])
+            from datetime import timedelta as _td
+            ops.append({"op": "mk", "h": _td(seconds=h).total_seconds(), "y": o["x0"], "rv": (math.sqrt(sum(v * v for v in o["x0"][:3])), math.sqrt(sum(v * v for v in o["x0"][3:])))})
+            if rng.random() < 0.5:
+                o = gen_orbit(rng, mu)
+        elif r < 0.52:
+            ops.append({"op": "rb"})
+        elif r < 0.68:
+            ops.append({"op": "sm", "m": name()})
+        elif r < 0.76:
+            step = q(rng.uniform(5, 120))
+            ops.append({"op": "ss", "h": step})
+        elif r < 0.84:
+            ops.append({"op": "st", "t": 10 ** rng.uniform(-8, -2)})
+        elif r < 0.88:
+            bs = [central] + ([far()] if rng.random() < 0.5 else [])
+            nb = len(bs)
+            ops.append({"op": "sb", "bodies": bs})
+        elif r < 0.92:
+            nb += 1
+            ops.append({"op": "ab", "body": far()})
+        elif r < 0.95 and nb >= 2:
+            nb -= 1
+            ops.append({"op": "db"})
+        else:
+            ops.append({"op": "cp"})
+    if ops[-1]["op"] not in ("mk", "rb"):
+        ops.append({"op": "mk", "h": step, "y": o["x0"], "rv": (math.sqrt(sum(v * v for v in o["x0"][:3])), math.sqrt(sum(v * v for v in o["x0"][3:])))})
+    return init, ops
+
+
+def _seq_request(init, ops):
+    toks = ["c06seq", init["method"], f2b(init["step"]), f2b(init["tol"]), str(len(init["bodies"]))]
+    for b in init["bodies"]:
+        toks += b.tokens()
+    for op in ops:
+        k = op["op"]
+        if k == "mk":
+            toks += ["mk", f2b(op["h"])] + [f2b(v) for v in op["y"]]
+        elif k == "sm":
+            toks += ["sm", op["m"]]
+        elif k == "ss":
+            toks += ["ss", f2b(op["h"])]
+        elif k == "st":
+            toks += ["st", f2b(op["t"])]
+        elif k == "sb":
+            toks += ["sb", str(len(op["bodies"]))] + [t for b in op["bodies"] for t in b.tokens()]
+        elif k == "ab":
+            toks += ["ab"] + op["body"].tokens()
+        else:
+            toks.append(k)
+    return " ".join(toks)
+
+
+def _real_call(prop, op):
+    """one observable call on a real object -> reply in the driver's vocabulary (floats as a list)"""
+    from beyond.dates import timedelta
+    from beyond.orbits import Orbit
+    try:
+        if op["op"] == "rb":
+            return _tab_tokens(prop.butcher)
+        prop.orbit = Orbit(list(op["y"]), epoch(), "cartesian", "EME2000", None)
+        hs, y1 = prop._make_step(prop.orbit, timedelta(seconds=op["h"]))
+        return [hs.total_seconds()] + [float(v) for v in y1.base]
+    except KeyError:
+        return "unknown-name"
+    except RuntimeError:
+        return "runtime-error"
+    except IndexError:
+        return "index-error"
+
+
+def _step_agree(real, model, errs, op, tol, mu):
+    """None = agree, "skip" = incomparable (estimate within rounding noise of tol), else a description"""
+    r_, v_ = op["rv"]
+    noise = 2e-16 * abs(op["h"]) * v_
+    if any(abs(e - tol) <= noise for e in errs):
+        return "skip"
+    if isinstance(real, str) or isinstance(model, str):
+        return None if real == model else "outcome"
+    dh = abs(model[0] - real[0])
+    shrunk = abs(real[0]) < abs(op["h"])
+    allowed = (1e-6 + abs(real[0]) * (1e-9 + 2e-16 * abs(op["h"]) * v_ / tol)) if shrunk else 0.0
+    if dh > allowed:
+        return "accepted step size"
+    for i, (a, b) in enumerate(zip(real[1:], model[1:])):
+        sc = r_ if i < 3 else v_
+        rate = v_ if i < 3 else mu / r_ ** 2
+        if not core.close(a, b, rtol=1e-11, atol=1e-11 * sc + 2 * dh * rate, scale=max(abs(a), abs(b))):
+            return f"component {i}"
+    return None
+
+
+def corr_histories(ctx, out, mu):
+    """ONE real KeplerNum object driven through a random history of attribute assignments, `copy()` and calls, against the
+    model's state machine (`KN.runOps`); a call whose reply also differs from that of a fresh real object carrying the same
+    attribute values violates the property itself (re-use clause)"""
+    from beyond.dates import timedelta
+    from beyond.propagators.keplernum import KeplerNum
+    rng = ctx.rng
+    reqs, hist = [], []
+    for _ in range(ctx.n(260, 6000)):
+        init, ops = gen_history(rng, mu)
+        reqs.append(_seq_request(init, ops))
+        hist.append((init, ops))
+    replies = core.Driver().run(reqs)
+    for req, (init, ops), rep in zip(reqs, hist, replies):
+        model = rep.split(" ; ")
+        desc = {"initial": {"method": init["method"], "step": init["step"], "tol": init["tol"], "bodies": [[getattr(b, "μ")] + b.pos for b in init["bodies"]]},
+                "ops": [{k: ([getattr(x, "μ")] + x.pos if isinstance(x, _FixedBody) else [[getattr(b, "μ")] + b.pos for b in x] if k == "bodies" else x)
+                         for k, x in op.items() if k != "rv"} for op in ops]}
+        if len(model) != len(ops):
+            out.fail("c06-seq", "reply length of a history", desc, observed=len(ops), expected=rep[:200])
+            continue
+        prop = KeplerNum(timedelta(seconds=init["step"]), list(init["bodies"]), method=init["method"], tol=init["tol"])
+        since = []          # assignments since the previous observable call
+        ncall = 0
+        for k, (op, mrep) in enumerate(zip(ops, model)):
+            kind = op["op"]
+            if kind in ("mk", "rb"):
+                real = _real_call(prop, op)
+                ncall += 1
+                out.count(key=(req[:60], k, len(req)), nontrivial=ncall > 1 or bool(since), kind="history-" + kind,
+                          after="+".join(sorted(set(since))) or ("first-call" if ncall == 1 else "call"))
+                mtxt, _, e = mrep.partition(" | ")
+                errs = [b2f(t) for t in e.split()] if kind == "mk" else []
+                mval = mtxt if (kind == "rb" or not mtxt[:1].isdigit()) else [b2f(t) for t in mtxt.split()]
+                why = (None if real == mval else "tableau") if kind == "rb" else _step_agree(real, mval, errs, op, prop.tol, mu)
+                if why == "skip":
+                    out.tally("step-borderline-skipped")
+                elif why is not None:
+                    # what does a FRESH real object carrying the same attribute values return?
+                    f = KeplerNum(prop.step, list(prop.bodies), tol=prop.tol)
+                    f.method = prop.method
+                    fresh = _real_call(f, op)
+                    stale = (fresh != real) if (isinstance(fresh, str) or isinstance(real, str)) else any(
+                        not core.close(a, b, rtol=1e-12, atol=1e-9) for a, b in zip(fresh, real))
+                    fam = "reuse-history-after-" + ("+".join(sorted(set(since))) or "call") if stale else "c06-seq-" + kind
+                    out.fail(fam, ("a re-used KeplerNum object does not return what a fresh object with the same attribute values returns (" if stale else
+                                   "history on one object: model and implementation disagree (") + why + f") at operation {k}",
+                             dict(desc, at=k), observed=real if isinstance(real, str) else real[:7], expected=(fresh if stale else mval),
+                             violates_property=bool(stale))
+                    break
+                since = []
+                continue
+            since.append({"sm": "method", "ss": "step", "st": "tol", "sb": "bodies", "ab": "bodies-append", "db": "bodies-pop", "cp": "copy"}[kind])
+            if kind == "sm":
+                prop.method = op["m"]
+            elif kind == "ss":
+                prop.step = timedelta(seconds=op["h"])
+            elif kind == "st":
+                prop.tol = op["t"]
+            elif kind == "sb":
+                prop.bodies = list(op["bodies"])
+            elif kind == "ab":
+                prop.bodies.append(op["body"])
+            elif kind == "db":
+                prop.bodies.pop()
+            elif kind == "cp":
+                prop = prop.copy()
+            if mrep != "q":
+                out.fail("c06-seq-" + kind, "an assignment is not silent in the model", dict(desc, at=k), observed="q", expected=mrep)
+                break
+        out.sample({"history": [op["op"] for op in ops], "model": [m[:40] for m in model]}, limit=2)
+
+
+# ---------------------------------------------------------------- correspondence: the tabulations `_iter` builds
+
+def _us(d, e):
+    return int(round(((d.d - e.d) * 86400 + (d.s - e.s)) * 1e6))
+
+
+def observe_iter(orb, call):
+    """run `call(orb)` (which consumes an iteration of `orb`) and report what `KeplerNum._iter` did: its keyword arguments,
+    the accepted step sizes, the `Ephem` objects it built (dates, order)"""
+    import beyond.propagators.keplernum as KM
+    prop = orb.propagator
+    steps, kws, ephems = [], [], []
+    real_ephem = KM.Ephem
+
+    class RecEphem(real_ephem):
+        def __init__(self, orbits, method=None, order=None):
+            super().__init__(orbits, method=method, order=order)
+            ephems.append(([o.date for o in self._orbits], self.order, self.method))
+
+    orig_ms, orig_it = prop._make_step, prop._iter
+
+    def ms(o, s_):
+        r = orig_ms(o, s_)
+        steps.append(r[0])
+        return r
+
+    def it(**kwargs):
+        kws.append(dict(kwargs, _step_is_self=kwargs.get("step") is prop.step, _epoch=prop.orbit.date))
+        return orig_it(**kwargs)
+    KM.Ephem = RecEphem
+    prop._make_step, prop._iter = ms, it
+    try:
+        res = call(orb)
+    finally:
+        KM.Ephem = real_ephem
+        del prop._make_step, prop._iter
+    return res, kws, steps, ephems
+
+
+def corr_iter(ctx, out, mu):
+    """the tabulations (dates, interpolation order) `KeplerNum._iter` builds for a request, against `KNIter.iterTab` fed with
+    the accepted step sizes `_make_step` reported"""
+    from beyond.dates import timedelta, Date
+    from beyond.propagators.listeners import ApsideListener, NodeListener
+    rng = ctx.rng
+    td = lambda x: timedelta(seconds=x)
+    cases = []
+    for k in range(ctx.n(160, 3000)):
+        o = gen_orbit(rng, mu)
+        h = q(rng.uniform(5, 120))
+        m = METHODS[k % 4]
+        tol = 10 ** rng.uniform(-6, -2)
+        form = rng.choice(SHORT_FORMS + ["propagate", "propagate", "native-step", "native-backward", "listeners", "step-is-self"])
+        plan = plan_short(rng, o, h, m, tol=tol, form=form if form in SHORT_FORMS else "step-smaller")
+        span, outs = plan["span"], plan["out_step"]
+        orb = make(o["x0"], h, m, tol=tol)
+        d0 = orb.date
+        if form.startswith("step-"):
+            call = lambda ob: list(ob.iter(stop=td(span), step=td(outs)))
+        elif form == "ephem":
+            call = lambda ob: list(ob.ephem(stop=td(span), step=td(outs)))
+        elif form in ("dates-list", "dates-before-epoch", "dates-across-epoch"):
+            call = lambda ob: list(ob.iter(dates=[d0 + td(x) for x in plan["offsets"]]))
+        elif form == "dates-range":
+            call = lambda ob: list(ob.iter(dates=Date.range(d0, d0 + td(span), td(outs), inclusive=True)))
+        elif form == "backward-step":
+            call = lambda ob: list(ob.iter(stop=-td(span), step=td(outs)))
+        elif form == "backward-explicit":
+            call = lambda ob: list(ob.iter(start=d0, stop=d0 - td(span), step=-td(outs)))
+        elif form == "start-offset":
+            call = lambda ob: list(ob.iter(start=d0 + td(plan["start"]), stop=d0 + td(plan["start"] + span), step=td(outs)))
+        elif form == "propagate":
+            T = q(rng.uniform(-12, 12) * h) if rng.random() < 0.8 else h * rng.randint(-9, 9)
+            plan["T"] = T
+            call = lambda ob: [ob.propagate(td(T))]
+        elif form == "native-step":
+            call = lambda ob: list(ob.iter(stop=td(span)))
+        elif form == "native-backward":
+            call = lambda ob: list(ob.iter(stop=-td(span)))
+        elif form == "step-is-self":
+            call = lambda ob: list(ob.iter(stop=td(span), step=ob.propagator.step))
+        else:
+            L = [ApsideListener(), NodeListener()][k % 2]
+            call = lambda ob: list(ob.iter(stop=td(span), listeners=[L]))
+        plan["form"] = form
+        inp = dict(case_inp(o, h, span), **{k_: v for k_, v in plan.items() if k_ not in ("step", "span")})
+        try:
+            with _Budget(20):
+                res, kws, steps, ephems = observe_iter(orb, call)
+        except Exception as e:      # the oracle reports failing requests; here they cannot be compared
+            out.tally("iter-request-raised=" + type(e).__name__)
+            continue
+        if len(kws) != 1:
+            out.fail("c06-iter", "one request, several `_iter` calls", inp, observed=len(kws), expected=1)
+            continue
+        kw = kws[0]
+        e0 = kw["_epoch"]
+        dates = kw.get("dates")
+        if dates is not None:
+            if hasattr(dates, "start"):
+                start, stop = dates.start, dates.stop
+            else:
+                ds = [d0 + td(x) for x in plan["offsets"]]
+                start, stop = min(ds), max(ds)
+            sg = False
+        else:
+            start, stop = kw.get("start", e0), kw.get("stop")
+            sg = kw.get("step") is not None and not kw["_step_is_self"]
+        ls = bool(kw.get("listeners", []))
+        req = " ".join(["c06iter", "0", str(_us(start, e0)), str(_us(stop, e0)), str(int(dates is not None)), str(int(sg)), str(int(ls))]
+                       + [str(int(round(s_.total_seconds() * 1e6))) for s_ in steps])
+        cases.append((req, inp, e0, ephems, len(steps), form, m))
+    replies = core.Driver().run([c[0] for c in cases])
+    for (req, inp, e0, ephems, ncalls, form, m), rep in zip(cases, replies):
+        obs = [(sorted(_us(d, e0) for d in ds), order) for ds, order, _ in ephems]
+        toks = rep.split()
+        if len(toks) != 6:
+            out.fail("c06-iter", "the model runs out of step sizes or rejects the request: `_iter` made fewer `_make_step` calls than the model needs",
+                     inp, observed={"make_step_calls": ncalls, "ephems": [(len(d), o_) for d, o_ in obs]}, expected=rep[:100])
+            continue
+        pos = None if toks[0] == "none" else sorted(int(x) for x in toks[0].split(","))
+        main = sorted(int(x) for x in toks[1].split(","))
+        want = ([(pos, int(toks[3]))] if pos is not None else []) + [(main, int(toks[4]))]
+        out.count(key=req, nontrivial=ncalls > 0, kind="iter-tabulation-" + form, method=m, interpolated=toks[2] == "1", points=len(main),
+                  positioning=pos is not None)
+        if obs != want or ncalls != int(toks[5]):
+            out.fail("c06-iter-" + form, "the tabulations (dates, interpolation order) built by `KeplerNum._iter`, or its number of `_make_step` calls, differ from the model",
+                     inp, observed={"ephems": [(len(d), o_, d[:1], d[-1:]) for d, o_ in obs], "make_step_calls": ncalls},
+                     expected={"ephems": [(len(d), o_, d[:1], d[-1:]) for d, o_ in want], "make_step_calls": int(toks[5])})
+        out.sample({"request": req[:120], "impl": [(len(d), o_) for d, o_ in obs], "model": [(len(d), o_) for d, o_ in want]}, limit=2)
 
 
 # ---------------------------------------------------------------- oracle on the real API
@@ -634,10 +1099,12 @@ def check_rk4(out, o, h, T, mu, deep):
     if es[0] > bound:
         out.fail("rk4-error-bound", "RK4 result is farther from the analytical two-body solution than C*rp*(n h)^4*(1+nT)^2",
                  case_inp(o, h, T, method="rk4"), observed=es[0], expected=bound)
-    assessable = es[-1] > 0.05 and es[0] < 1e-3 * o["rp"]
-    out.count(key=("rk4-order", h, T, o["rp"]), nontrivial=assessable, kind="rk4-order", assessable=assessable)
+    # the finest pair whose errors are above the interpolation floor (propagate interpolates the target date: up to 15 mm)
+    pair = (es[1], es[2]) if es[2] > 0.05 else (es[0], es[1])
+    assessable = pair[1] > 0.05 and es[0] < 1e-3 * o["rp"]
+    out.count(key=("rk4-order", h, T, o["rp"]), nontrivial=assessable, kind="rk4-order", rk4_order_assessable=assessable)
     if assessable:
-        p = math.log2(es[-2] / es[-1])
+        p = math.log2(pair[0] / pair[1])
         # one-sided: over whole numbers of revolutions the h^4 term of the global error nearly cancels and the observed
         # order approaches 5 (4.90 on both pairs at e = 0.46, T = 2.9 periods); faster than 4 is not a violation
         if not (3.5 <= p <= 6.5):
@@ -670,7 +1137,7 @@ def check_euler(out, o, h, T, mu):
             return
         es.append(float(np.linalg.norm(r[:3] - ref[:3])))
     assessable = es[0] < 0.05 * o["rp"] and es[1] > 0.05
-    out.count(key=("euler", h, Te, o["rp"]), nontrivial=assessable, kind="euler-order", assessable=assessable, direction="back" if T < 0 else "fwd")
+    out.count(key=("euler", h, Te, o["rp"]), nontrivial=assessable, kind="euler-order", euler_order_assessable=assessable, direction="back" if T < 0 else "fwd")
     if assessable:
         p = math.log2(es[0] / es[1])
         if not (0.7 <= p <= 2.5):
